@@ -144,6 +144,46 @@ def r1c_constants_complete(ctx, sym):
                   "an analysis" % (value, value))
 
 
+def r1d_container_literals(ctx, sym):
+    ctx.rule('R1d', "Tifa.visit_Tuple / visit_List / visit_Set executed abstractly on an empty and a two-element literal, "
+                    "the pedal type constructed by its own __init__ (interpreted): a tuple type holds the sequence of "
+                    "its element types (empty for `()`), list/set types say whether they are empty - whatever later "
+                    "code iterates or tests is of the kind the constructor documents")
+    from .. import symexec
+    mod = ctx.repo.module(VISITOR)
+    for vname in ('visit_Tuple', 'visit_List', 'visit_Set'):
+        try:
+            fn = mod.func('Tifa.' + vname)
+        except AnalysisError:
+            continue
+        ctx.analysed_function(mod, fn)
+        for n_elts in (0, 2):
+            elts = [Obj('element-node-%d' % i) for i in range(n_elts)]
+            visited = {id(e): Obj('IntType') for e in elts}
+            me = symexec.self_obj(mod, 'Tifa', report=Obj('report'))
+            symexec.method(me, 'visit', lambda node: visited[id(node)])
+            fd = symexec.new_fd(sym, mod, calls={
+                'isinstance': lambda o, t: False, 'widest_type': lambda xs: xs[0] if xs else None,
+                'all': lambda xs: all(bool(x) for x in xs)})
+            got, raised = symexec.run(fd, fn, [Obj('literal-node', elts=elts)], bound_self=me, what='Tifa.' + vname)
+            ok = raised is None and isinstance(got, Obj)
+            detail = ''
+            if ok and vname == 'visit_Tuple':
+                et = got.attrs.get('element_types')
+                ok = isinstance(et, (tuple, list)) and len(et) == n_elts and all(
+                    x is visited[id(e)] for x, e in zip(et, elts))
+                detail = "element_types = %r" % (et,)
+            elif ok:
+                flag = got.attrs.get('is_empty')
+                ok = flag is (n_elts == 0)
+                detail = "is_empty = %r" % (flag,)
+            ctx.check(ok, 'R1d', '%s[%d element(s)]' % (vname, n_elts), mod, fn,
+                      "visiting a literal with %d element(s) %s" % (n_elts, ('builds a type with ' + detail) if
+                                                                 raised is None else 'raises %s' % raised.kind),
+                      "t = ()\nu = t + (1,)   -> TIFA ends with a system error ('bool' object is not iterable) instead "
+                      "of an analysis")
+
+
 def line_offset_rule(ctx, sym, rule):
     """The line offset used by TifaCore.locate() is the submission's offset for the file analysed (process_code
     executed abstractly for the main file, another known file and an unknown file)."""
@@ -511,6 +551,7 @@ def run(ctx):
     binop_cells_callable(ctx, sym, 'R4b')
     r2_idempotent(ctx, sym)
     r3_resolution(ctx, sym)
+    r1d_container_literals(ctx, sym)    # after R3: an unresolved name is R3's finding, not an undecidable visitor
     r4_builtin_tables(ctx, sym)
     r5_determinism(ctx, sym)
     ctx.assume("'completes for every introductory program' is decided only through resolution completeness and the "
